@@ -46,6 +46,28 @@ def clone(n):
     return n
 
 
+def canon_compare(e):
+    """one spelling per comparison: a literal goes to the right-hand side; otherwise `>` / `>=` are written as `<` / `<=`
+    (a > b == b < a).  Applied to every single-operator Compare inside e; returns a copy."""
+    flip = {ast.Lt: ast.Gt, ast.Gt: ast.Lt, ast.LtE: ast.GtE, ast.GtE: ast.LtE, ast.Eq: ast.Eq, ast.NotEq: ast.NotEq}
+
+    class C(ast.NodeTransformer):
+        def visit_Compare(self, n):
+            self.generic_visit(n)
+            if len(n.ops) != 1 or type(n.ops[0]) not in flip:
+                return n
+            l, r, op = n.left, n.comparators[0], type(n.ops[0])
+
+            def lit(x):
+                return isinstance(x, ast.Constant) or (isinstance(x, ast.UnaryOp) and isinstance(x.operand, ast.Constant))
+            if lit(l) and not lit(r):
+                n.left, n.comparators, n.ops = r, [l], [flip[op]()]
+            elif not lit(r) and op in (ast.Gt, ast.GtE):
+                n.left, n.comparators, n.ops = r, [l], [flip[op]()]
+            return n
+    return C().visit(clone(e))
+
+
 def U(node):
     return ast.unparse(node)
 
